@@ -59,8 +59,8 @@ def link_reduce(lls, entries, out):
     return out
 
 
-def translate(ll, cfile, narrow=0, extra=()):
-    cmd = [sys.executable, LL2C, ll, '-o', cfile] + (['--narrow', str(narrow)] if narrow else []) + list(extra)
+def translate(ll, cfile, narrow=0, extra=(), entries=()):
+    cmd = [sys.executable, LL2C, ll, '-o', cfile] + (['--narrow', str(narrow)] if narrow else []) + (['--entries', ','.join(entries)] if entries else []) + list(extra)
     r = run(cmd)
     if r.returncode != 0:
         raise BuildError('ll2c failed on %s:\n%s' % (ll, r.stdout[-4000:]))
